@@ -975,5 +975,7 @@ class Parser:
 
         tok_stream = generate_tokens(io.StringIO(source).readline)
         tokenizer = Tokenizer(tok_stream, verbose=verbose)
+        # error reports quote the same physical lines a file would provide
+        tokenizer._lines = dict(enumerate(io.StringIO(source).readlines(), 1))
         parser = cls(tokenizer, verbose=verbose, py_version=py_version)
         return parser.parse(mode if mode == "eval" else "file")
